@@ -92,7 +92,6 @@ extern "C" int LLVMFuzzerTestOneInput(const uint8_t *data, size_t size) {
   sim_reset();
   verif_case_begin("C36");
   Src s(data, size);
-  const bool known_empty = verif_known("C36/empty-label-sent"), known_long = verif_known("C36/overlong-name-sent");
   World w; w.open(1);
   Case c;
 
@@ -105,7 +104,7 @@ extern "C" int LLVMFuzzerTestOneInput(const uint8_t *data, size_t size) {
   if (edns) { w.set_opt("edns-udp-size:", edns); edns_eff = edns < 512 ? 512 : edns > 65535 ? 65535 : edns; }   // documented clipping to [512, 65535]
   bool want_opt = edns_eff > 512;
   int ndom = s.below(4); std::vector<std::string> doms_added;
-  for (int i = 0; i < ndom; i++) { int di = s.below(NDOMAINS); if (known_empty && strstr(DOMAINS[di], "..")) { verif_known_skipped("C36/empty-label-sent"); di = 0; } doms_added.push_back(DOMAINS[di]); evdns_base_search_add(w.dns, DOMAINS[di]); }
+  for (int i = 0; i < ndom; i++) { int di = s.below(NDOMAINS); doms_added.push_back(DOMAINS[di]); evdns_base_search_add(w.dns, DOMAINS[di]); }
   int ndots = 1; bool ndots_set = s.flag();
   if (ndots_set) { ndots = s.below(4); if (s.flag()) evdns_base_search_ndots_set(w.dns, ndots); else w.set_opt("ndots:", ndots); }
   // search order: evdns_base_search_add() pushes to the FRONT of the list (code-derived corner, dns.h is silent)
@@ -130,7 +129,7 @@ extern "C" int LLVMFuzzerTestOneInput(const uint8_t *data, size_t size) {
     struct in6_addr in6; memcpy(&in6, addr, 16);
     h = evdns_base_resolve_reverse_ipv6(w.dns, &in6, flags, resolve_cb, &c);
   } else {
-    name = gen_name(s, !known_empty, !known_long);
+    name = gen_name(s, true, true);
     if (name.empty() && ndom) name = "x";   // empty name with a search list: not generated (behaviour undocumented)
   }
 
@@ -144,13 +143,6 @@ extern "C" int LLVMFuzzerTestOneInput(const uint8_t *data, size_t size) {
     for (auto &d : doms) cand.push_back(app(d));
     if (count_dots(name) < ndots) cand.push_back(name);
   }
-  // known findings: keep away from the sub-domains by construction
-  bool narrowed = false;
-  for (auto &cn : cand) { TextName t = split_text(cn);
-    if (known_empty && t.empty_label) { verif_known_skipped("C36/empty-label-sent"); narrowed = true; }
-    if (known_long && t.too_long && cn.size() <= 255) { verif_known_skipped("C36/overlong-name-sent"); narrowed = true; } }
-  if (narrowed) { w.finish("C36/leak"); verif_case_end(0, s.h); return 0; }
-
   TR("config: randomize-case=%d(%s) edns=%ld ndots=%d%s domains(search order)=%zu flags=%d type=%u", randcase, rc_mode ? "set" : "default", edns, ndots, ndots_set ? "" : "(default)", doms.size(), flags, qtype);
   for (auto &d : doms) TR("  domain \"%s\"", esc(d).c_str());
   TR("request name=\"%s\" (len %zu)", esc(name, 300).c_str(), name.size());
